@@ -17,8 +17,9 @@ Mirrors (BugStalker, `src/dap/yadap/session/breakpoint.rs`, `control.rs`, `src/d
                 `restart_debugee` whose reason `start_debugee_force_with_reason` discards.
 * `HitCond`, `parseHit` — `HitCondition::{parse, matches}`.
 
-The abstract program is `τ`: the native execution restricted to candidate addresses, each event with the truth `env`
-of the debuggee's condition variables (0 = not in scope, `1 + odd + 2*big` in scope).
+The abstract program is `τ`: the native execution restricted to candidate addresses, each event with `env`:
+`env % 8` = the truth of the debuggee's condition variables (0 = not in scope, `1 + odd + 2*big` in scope),
+`env / 8` = a position tag (which loop iteration), echoed in the answers so that equal addresses are told apart.
 Core Lean only (linked into `bsmodel`).
 -/
 namespace BsVerif.DapBp
@@ -109,14 +110,15 @@ deriving DecidableEq, Repr
 /-- `evaluate_condition_expression`: the text is first tried as a LITERAL — and a plain identifier parses as an
 enum-variant literal, which is truthy — then as an expression whose first result's truthiness counts; a local that is
 not visible at the stop makes `read_variable` return no result => `Ok(false)`; a parse failure is an `Err`.
-`env`: 0 = the locals are not visible, otherwise `1 + odd + 2*big`. -/
+`env % 8`: 0 = the locals are not visible, otherwise `1 + odd + 2*big`; `env / 8` is a position tag of the event
+(number of completed loop ticks of the debuggee) that only serves to identify the stop in the answers. -/
 def evalCond : Cond → Nat → CondRes
   | .none, _ => .tt
   | .lit b, _ => if b then .tt else .ff
   | .var _ true, _ => .tt
   | .var bit false, env =>
-    if env = 0 then .ff
-    else if ((env - 1) / 2 ^ bit) % 2 = 1 then .tt else .ff
+    if env % 8 = 0 then .ff
+    else if ((env % 8 - 1) / 2 ^ bit) % 2 = 1 then .tt else .ff
   | .unknownVar true, _ => .tt
   | .unknownVar false, _ => .ff
   | .parseErr, _ => .err
